@@ -1572,6 +1572,7 @@ _vbi_cache_put_page		(vbi_cache *		ca,
 				goto replace;
 
 			if (pri != cp->priority
+			    || 0 == cp->network->ref_count /* listed above */
 			    || cp == old_cp)
 				continue;
 
